@@ -60,6 +60,7 @@ template <class V> bool clip_one (bool)
     n += l_n; inside += l_in; outside += l_out; boundary += l_b;
     });
     vf::R ().add ("transitions", 2 * n.load ()); vf::R ().add ("evaluations", n.load ()); vf::R ().add ("states", n.load ());
+    if (is_half<T>::value) vf::R ().cls ("half.clip.cases", n.load ());
     vf::R ().cls ("clip.point-outside", outside); vf::R ().cls ("clip.point-on-boundary", boundary); vf::R ().cls ("clip.point-strictly-inside.generic", inside);
     return done;
 }
@@ -134,6 +135,7 @@ template <class T> bool onbox_one (bool)
     n += l_n; n_empty += l_empty; n_in += l_in; n_on += l_on; n_out += l_out; n_tie += l_tie;
     });
     vf::R ().add ("transitions", n.load ()); vf::R ().add ("evaluations", n.load ()); vf::R ().add ("states", n.load ());
+    if (is_half<T>::value) vf::R ().cls ("half.closestPointOnBox.cases", n.load ());
     vf::R ().cls ("onbox.empty-box", n_empty); vf::R ().cls ("onbox.point-strictly-inside", n_in); vf::R ().cls ("onbox.point-on-surface", n_on);
     vf::R ().cls ("onbox.point-outside.generic", n_out); vf::R ().cls ("onbox.equidistant-faces", n_tie);
     return done;
